@@ -647,6 +647,10 @@ func ReadVarlena(data []byte) ([]byte, int) {
 	
 	// Check for TOAST pointer (external storage, treat as null)
 	if first == 1 {
+		// an on-disk pointer (va_tag 18 = VARTAG_ONDISK) occupies 2 + 16 bytes
+		if len(data) >= 18 && data[1] == 18 {
+			return nil, 18
+		}
 		return nil, 1
 	}
 	
